@@ -32,6 +32,7 @@ type Step struct {
 	To        string `json:"to,omitempty"`
 	Amount    int64  `json:"amount,omitempty"`
 	Rewrite   bool   `json:"rewrite,omitempty"` // restart: the genesis is re-written in an equivalent form before it is imported
+	NewChain  bool   `json:"new_chain,omitempty"` // restart: the new chain starts again at height 1 (only outside commit mode)
 }
 
 type FundRec struct {
@@ -431,16 +432,29 @@ func (r *Run) Mod(op ModOp, note string) StepResult {
 // genesis may have it.
 func (r *Run) Restart() StepResult { return r.RestartOpt(len(r.hist.Steps)%2 == 0) }
 
+// RestartOpt: every restart whose position is 1 or 2 modulo 4 also starts the new chain at
+// height 1 again, as a zero-height restart normally does (batch counters carry over, heights
+// do not); in commit mode the chain of the history goes on at its own height.
 func (r *Run) RestartOpt(rewrite bool) StepResult {
+	return r.restartFull(rewrite, !r.w.commit && (len(r.hist.Steps)%4 == 1 || len(r.hist.Steps)%4 == 2))
+}
+
+func (r *Run) restartFull(rewrite, newChain bool) StepResult {
 	if expired() {
 		r.stop = true
 		return StepResult{}
 	}
-	st := Step{Kind: "restart", Rewrite: rewrite, Desc: "zero-height restart: prepare, export, wipe the module store, import"}
+	st := Step{Kind: "restart", Rewrite: rewrite, NewChain: newChain, Desc: "zero-height restart: prepare, export, wipe the module store, import"}
+	if newChain {
+		st.Desc += " (the new chain starts at height 1)"
+	}
 	if rewrite {
 		st.Desc += " (genesis re-written: lists reversed, disabled time of available bindings = Unix epoch)"
 	}
 	res := r.w.Restart(rewrite)
+	if newChain && res.OK {
+		r.w.height = 1
+	}
 	r.after(st, nil, res)
 	return res
 }
@@ -547,7 +561,7 @@ func Replay(a *App, h *History, mon *Mon) *Run {
 		case "modsvc":
 			r.SetModSvcBehaviour(ModSvcBehaviour(st.Behaviour))
 		case "restart":
-			r.RestartOpt(st.Rewrite)
+			r.restartFull(st.Rewrite, st.NewChain)
 		case "params":
 			pb, err := base64.StdEncoding.DecodeString(st.ParamsB64)
 			must(err)
